@@ -18,6 +18,7 @@ RULE = (
     "one application context, one user-information item with one max-length and one implementation-class-UID, one result per "
     "proposed context, accepted results carry one proposed transfer syntax, titles/UIDs legal and not all spaces; non-trivial = "
     "the configuration uses at least one limit value or optional item; distinct = distinct configurations (inputs dominate)"
+    " The requested contexts reach associate() via the AE's configuration, as the contexts argument, with the same context object listed twice, or mixed with context objects (carrying IDs) taken from an earlier association; a context may have an empty transfer syntax list (must be refused by the API)."
 )
 STUBS = ["scripted RawPeer (requestor) in one third of the cases"]
 
